@@ -268,6 +268,13 @@ def main(argv=None):
             report.coverage["recycle"] = rs
             report.coverage["states"] = report.coverage.get("states", 0) + rs.get("states", 0)
             report.coverage["traces_validated_against_impl"] = report.coverage.get("traces_validated_against_impl", 0) + rs.get("sequences", 0)
+            from checks import plans
+            ps = plans.run(report, args.tier, args.seed, pid)
+            report.coverage["plans"] = ps
+            report.coverage["states"] = report.coverage.get("states", 0) + ps.get("states", 0)
+            report.coverage["traces_validated_against_impl"] = report.coverage.get("traces_validated_against_impl", 0) + ps.get("sequences", 0)
+            if ps.get("f17_found_by_model"):
+                report.notes.append("Plans.tla: NoSpuriousRejection fails in the model (this is finding F17)")
             if rs.get("strict_invariant_violated_in_model"):
                 report.notes.append("Recycle.tla: the strict invariant DoneMeansInputsDeclared fails in the model (this is finding F15)")
     return report.finish()
